@@ -4,3 +4,7 @@ import InToto.Properties.C17
 #print axioms InToto.C17.malformed_matches_nothing
 #print axioms InToto.C17.star_crosses_slash
 #print axioms InToto.C17.bytewise_star_was_wrong
+#print axioms InToto.C17.correct_for_all_utf8
+#print axioms InToto.C17.malformed_matches_nothing_utf8
+#print axioms InToto.C17.ascii_is_a_special_case
+#print axioms InToto.C17.question_mark_is_one_character
